@@ -16,9 +16,12 @@ import (
 // innermost first.
 func enclosingLoops(p *Prog, fn *Fn, n ast.Node) []ast.Stmt {
 	var out []ast.Stmt
-	for cur := p.parent[n]; cur != nil && cur != ast.Node(fn.Body); cur = p.parent[cur] {
+	for cur := p.ParentIn(fn, n); cur != nil && cur != ast.Node(fn.Body); cur = p.ParentIn(fn, cur) {
 		switch x := cur.(type) {
 		case *ast.ForStmt:
+			if lbl, ok := p.ParentIn(fn, x).(*ast.LabeledStmt); ok && strings.HasPrefix(lbl.Label.Name, "inl$") {
+				continue // the synthetic one-shot loop that wraps a spliced-in helper body
+			}
 			out = append(out, x)
 		case *ast.RangeStmt:
 			out = append(out, x)
@@ -40,17 +43,17 @@ func loopBody(s ast.Stmt) *ast.BlockStmt {
 }
 
 // branchTarget: the statement an unlabelled/labelled break or continue leaves or continues.
-func branchTarget(p *Prog, br *ast.BranchStmt) ast.Node {
+func branchTarget(p *Prog, fn *Fn, br *ast.BranchStmt) ast.Node {
 	if br.Label != nil {
 		// the labelled statement's inner statement
-		for cur := p.parent[ast.Node(br)]; cur != nil; cur = p.parent[cur] {
+		for cur := p.ParentIn(fn, ast.Node(br)); cur != nil; cur = p.ParentIn(fn, cur) {
 			if ls, ok := cur.(*ast.LabeledStmt); ok && ls.Label.Name == br.Label.Name {
 				return ls.Stmt
 			}
 		}
 		return nil
 	}
-	for cur := p.parent[ast.Node(br)]; cur != nil; cur = p.parent[cur] {
+	for cur := p.ParentIn(fn, ast.Node(br)); cur != nil; cur = p.ParentIn(fn, cur) {
 		switch cur.(type) {
 		case *ast.ForStmt, *ast.RangeStmt:
 			return cur
@@ -80,7 +83,7 @@ func loopComplete(p *Prog, fn *Fn, n ast.Node, depth int, exitsOnly, allowErrRet
 		considered[l] = true
 	}
 	if !exitsOnly {
-		for cur := p.parent[n]; cur != nil && cur != ast.Node(outer); cur = p.parent[cur] {
+		for cur := p.ParentIn(fn, n); cur != nil && cur != ast.Node(outer); cur = p.ParentIn(fn, cur) {
 			switch cur.(type) {
 			case *ast.IfStmt, *ast.SwitchStmt, *ast.TypeSwitchStmt, *ast.SelectStmt, *ast.CaseClause, *ast.CommClause:
 				return false, "guarded by a condition at " + p.Pos(cur.Pos())
@@ -95,14 +98,14 @@ func loopComplete(p *Prog, fn *Fn, n ast.Node, depth int, exitsOnly, allowErrRet
 			case token.GOTO:
 				why = "goto at " + p.Pos(x.Pos())
 			case token.BREAK:
-				if t := branchTarget(p, x); t == nil || considered[t] || !insideNode(p, t, outer) {
+				if t := branchTarget(p, fn, x); t == nil || considered[t] || !insideNode(p, fn, t, outer) {
 					why = "break at " + p.Pos(x.Pos()) + " leaves the loop before every element was processed"
 				}
 			case token.CONTINUE:
 				if exitsOnly {
 					return true
 				}
-				if t := branchTarget(p, x); (t == nil || considered[t]) && x.Pos() < n.Pos() {
+				if t := branchTarget(p, fn, x); (t == nil || considered[t]) && x.Pos() < n.Pos() {
 					why = "continue at " + p.Pos(x.Pos()) + " skips the statement for some elements"
 				}
 			}
@@ -123,8 +126,8 @@ func loopComplete(p *Prog, fn *Fn, n ast.Node, depth int, exitsOnly, allowErrRet
 }
 
 // insideNode: n is (transitively) inside anc.
-func insideNode(p *Prog, n, anc ast.Node) bool {
-	for cur := n; cur != nil; cur = p.parent[cur] {
+func insideNode(p *Prog, fn *Fn, n, anc ast.Node) bool {
+	for cur := n; cur != nil; cur = p.ParentIn(fn, cur) {
 		if cur == anc {
 			return true
 		}
@@ -231,7 +234,7 @@ func earlyLoopExits(p *Prog, fn *Fn) (loops int, exits []loopExit) {
 				case token.GOTO:
 					exits = append(exits, loopExit{fn, n.(ast.Stmt), desc, y, "goto"})
 				case token.BREAK:
-					if t := branchTarget(p, y); t == nil || t == n || !insideNode(p, t, n) {
+					if t := branchTarget(p, fn, y); t == nil || t == n || !insideNode(p, fn, t, n) {
 						exits = append(exits, loopExit{fn, n.(ast.Stmt), desc, y, "break"})
 					}
 				}
